@@ -49,6 +49,10 @@ pub struct Case {
     /// Keep every event reference until the end (instead of dropping each
     /// before the next poll).
     pub retain: bool,
+    /// How the two watches were added: 0 watch_directory + watch_file on the Watcher;
+    /// 1 one recursive `watch` of a directory tree (records refer to the sub-directory and to the top);
+    /// 2 through the `Events` handle before the first poll.
+    pub setup: u8,
 }
 
 fn v(sig: &str, msg: String) -> Violation {
@@ -117,12 +121,24 @@ pub fn run(case: &Case) -> Vec<Violation> {
     let sq = ring.sq();
     crate::mapwatch::fake_inotify(true);
     let mut watcher = talloc::track(|| Watcher::new(sq.clone()).expect("watcher"));
-    talloc::track(|| {
-        watcher.watch_directory(paths[0].clone(), Interest::ALL, Recursive::No).expect("watch dir");
-        watcher.watch_file(paths[1].clone(), Interest::ALL).expect("watch file");
-    });
-    // The real watch descriptors: inotify hands out 1, 2, ... per instance.
-    let wds = [1i32, 2i32];
+    // The watch descriptors: inotify hands out 1, 2, ... per instance, in the order of the calls.
+    let (paths, wds) = match case.setup {
+        1 => {
+            // top/sub/deeper: sub-directories are added before their parent.
+            let top = dir.join("watched_dir");
+            let _ = std::fs::create_dir_all(top.join("sub").join("deeper"));
+            talloc::track(|| watcher.watch(top.clone(), Interest::ALL, Recursive::All).expect("recursive watch"));
+            ([top.join("sub"), top], [2i32, 3i32])
+        }
+        2 => (paths, [1i32, 2i32]),
+        _ => {
+            talloc::track(|| {
+                watcher.watch_directory(paths[0].clone(), Interest::ALL, Recursive::No).expect("watch dir");
+                watcher.watch_file(paths[1].clone(), Interest::ALL).expect("watch file");
+            });
+            (paths, [1i32, 2i32])
+        }
+    };
 
     // Chunks.
     let mut chunks: Vec<Vec<usize>> = vec![Vec::new()];
@@ -173,6 +189,12 @@ pub fn run(case: &Case) -> Vec<Violation> {
     let mut retention: Vec<Violation> = Vec::new();
     {
         let mut events = talloc::track(|| watcher.events());
+        if case.setup == 2 {
+            talloc::track(|| {
+                events.watch_directory(paths[0].clone(), Interest::ALL, Recursive::No).expect("watch dir");
+                events.watch_file(paths[1].clone(), Interest::ALL).expect("watch file");
+            });
+        }
         let mut chunk_idx = 0;
         let mut finished_script = false;
         'outer: loop {
@@ -408,12 +430,12 @@ pub fn cases(quick: bool) -> Vec<Case> {
                 if quick && n == 3 && ending == Ending::Pending {
                     continue;
                 }
-                v.push(Case { recs: recs.clone(), cuts, ending, eintr_at: None, retain: false });
+                v.push(Case { recs: recs.clone(), cuts, ending, eintr_at: None, retain: false, setup: 0 });
             }
             if n <= 2 {
-                v.push(Case { recs: recs.clone(), cuts, ending: Ending::End, eintr_at: Some(1), retain: false });
-                v.push(Case { recs: recs.clone(), cuts, ending: Ending::End, eintr_at: Some(2), retain: true });
-                v.push(Case { recs: recs.clone(), cuts, ending: Ending::Pending, eintr_at: None, retain: true });
+                v.push(Case { recs: recs.clone(), cuts, ending: Ending::End, eintr_at: Some(1), retain: false, setup: 0 });
+                v.push(Case { recs: recs.clone(), cuts, ending: Ending::End, eintr_at: Some(2), retain: true, setup: 0 });
+                v.push(Case { recs: recs.clone(), cuts, ending: Ending::Pending, eintr_at: None, retain: true, setup: 0 });
             }
         }
     }
@@ -423,11 +445,18 @@ pub fn cases(quick: bool) -> Vec<Case> {
             if quick && wd == 1 && name_len % 16 > 1 {
                 continue;
             }
-            v.push(Case { recs: vec![Rec { wd, mask, cookie: 7, name_len, len_field: None }, alpha[0].clone()], cuts: if 16 + (name_len + 1).div_ceil(16) * 16 + 32 > 272 { 1 } else { 0 }, ending: Ending::End, eintr_at: None, retain: false });
+            v.push(Case { recs: vec![Rec { wd, mask, cookie: 7, name_len, len_field: None }, alpha[0].clone()], cuts: if 16 + (name_len + 1).div_ceil(16) * 16 + 32 > 272 { 1 } else { 0 }, ending: Ending::End, eintr_at: None, retain: false, setup: 0 });
         }
         // Minimal padding (name + one NUL) and none at all.
         if name_len > 0 && (!quick || name_len % 5 == 0 || name_len < 20) {
-            v.push(Case { recs: vec![Rec { wd: 0, mask: libc::IN_DELETE, cookie: 0, name_len, len_field: Some(name_len + 1) }], cuts: 0, ending: Ending::End, eintr_at: None, retain: false });
+            v.push(Case { recs: vec![Rec { wd: 0, mask: libc::IN_DELETE, cookie: 0, name_len, len_field: Some(name_len + 1) }], cuts: 0, ending: Ending::End, eintr_at: None, retain: false, setup: 0 });
+        }
+    }
+    // The other ways of adding the watches, over a sample of the cases above (all of the short ones).
+    let extra: Vec<Case> = v.iter().filter(|c| c.recs.len() <= if quick { 1 } else { 2 } && c.recs.iter().all(|r| r.name_len < 40)).cloned().collect();
+    for setup in [1u8, 2] {
+        for c in &extra {
+            v.push(Case { setup, ..c.clone() });
         }
     }
     let bits = [
@@ -437,7 +466,7 @@ pub fn cases(quick: bool) -> Vec<Case> {
     for bit in bits {
         for isdir in [0, libc::IN_ISDIR] {
             for wd in 0..4u8 {
-                v.push(Case { recs: vec![Rec { wd, mask: bit | isdir, cookie: 1, name_len: 3, len_field: None }], cuts: 0, ending: Ending::Pending, eintr_at: None, retain: false });
+                v.push(Case { recs: vec![Rec { wd, mask: bit | isdir, cookie: 1, name_len: 3, len_field: None }], cuts: 0, ending: Ending::Pending, eintr_at: None, retain: false, setup: 0 });
             }
         }
     }
